@@ -6,6 +6,7 @@ import (
 	"fmt"
 	"github.com/go-faster/jx"
 	custom_errors "github.com/metrico/qryn/writer/utils/errors"
+	"io"
 
 	"math"
 	"strconv"
@@ -140,6 +141,10 @@ func (z *zipkinDecoderV2) decodeSpan(rawSpan jx.Raw) error {
 	})
 	if err != nil {
 		return custom_errors.NewUnmarshalError(err)
+	}
+	// nothing may follow the span object (an NDJSON line is stored as the payload, and the read path refuses a payload with a tail)
+	if err := dec.Skip(); err != io.EOF {
+		return custom_errors.New400Error("unexpected data after the span object")
 	}
 	z.key = append(z.key, "service.name")
 	z.val = append(z.val, z.serviceName)
